@@ -127,12 +127,18 @@ pub fn run(ctx: &Ctx, with_reader_side: bool) -> Report {
         let shapes: Vec<Shape> = if i == 0 { vec![] } else { gen::sequence(t, &mut r, &c, 1, if big { 3 } else { ctx.pick(5, 40) }, i as u64) };
         let nshapes = shapes.len();
         let finalize = i % 2 == 0;
+        // every 5th file: an explicit finalize after the k-th shape as well (the file left behind
+        // must be the same well-formed file; C09 enumerates such histories exhaustively)
+        let mid_finalize: Option<usize> = if i % 5 == 2 && nshapes >= 2 { Some(1 + i % (nshapes - 1)) } else { None };
         let by_path = i % 3 == 1;
         let name = format!("t{}_{}", t, i);
         let shp_path = format!("{}/{}.shp", dir, name);
         let shx_path = format!("{}/{}.shx", dir, name);
         rep.eval();
-        rep.class(&format!("{}:{}:{}", type_name(t), if by_path { "from_path" } else { "cursor" }, if finalize { "finalize" } else { "drop" }));
+        rep.class(&format!("{}:{}:{}{}", type_name(t), if by_path { "from_path" } else { "cursor" }, if finalize { "finalize" } else { "drop" }, if mid_finalize.is_some() { "+mid-finalize" } else { "" }));
+        if mid_finalize.is_some() {
+            rep.count("files_with_a_finalize_in_the_middle", 1);
+        }
         let written: Vec<D> = shapes.iter().map(|s| s.d()).collect();
         if nshapes >= 2 || written.iter().any(|d| d.parts.len() >= 2 || d.has_special()) {
             rep.nontrivial(&format!("{}|{}", by_path, written.iter().map(|d| d.class_key()).collect::<Vec<_>>().join("|")));
@@ -141,8 +147,11 @@ pub fn run(ctx: &Ctx, with_reader_side: bool) -> Report {
             if by_path {
                 {
                     let mut w = ShapeWriter::from_path(&shp_path)?;
-                    for s in &shapes {
+                    for (k, s) in shapes.iter().enumerate() {
                         write_one(&mut w, s)?;
+                        if mid_finalize == Some(k + 1) {
+                            w.finalize()?;
+                        }
                     }
                     if finalize {
                         w.finalize()?;
@@ -154,8 +163,11 @@ pub fn run(ctx: &Ctx, with_reader_side: bool) -> Report {
                 let mut shx = Cursor::new(Vec::new());
                 {
                     let mut w = ShapeWriter::with_shx(&mut shp, &mut shx);
-                    for s in &shapes {
+                    for (k, s) in shapes.iter().enumerate() {
                         write_one(&mut w, s)?;
+                        if mid_finalize == Some(k + 1) {
+                            w.finalize()?;
+                        }
                     }
                     if finalize {
                         w.finalize()?;
